@@ -234,7 +234,15 @@ impl EntryIoStream for RecStream {
             Res::Validation => Err(IoStreamError::Validation(ValidationError::invalid(
                 "scripted validation error",
             ))),
-            Res::Io => Err(IoStreamError::Io(io::Error::other("scripted io error"))),
+            Res::Io => {
+                // the kind varies with the entry (the queue treats all kinds alike, also those
+                // that elsewhere invite a retry)
+                let k = match &seen {
+                    Seen::Tagged(t) => (t.p as usize + t.seq as usize) % 3,
+                    _ => 0,
+                };
+                Err(IoStreamError::Io(io::Error::new([io::ErrorKind::WouldBlock, io::ErrorKind::Other, io::ErrorKind::Interrupted][k], "scripted io error")))
+            }
         }
     }
 
@@ -265,6 +273,10 @@ impl Drop for RecStream {
 
 // ------------------------------------------------------------------------------------------
 // polling a future with a waker that snapshots the stream log at the instant it is woken
+
+/// set per model (one model per process): `wait_with_snapshot` probes the future once with
+/// another waker before it waits with its own
+pub static PROBE_FIRST: std::sync::atomic::AtomicBool = std::sync::atomic::AtomicBool::new(false);
 
 pub struct SnapWaker {
     shadow: Shadow,
@@ -305,6 +317,15 @@ pub fn wait_with_snapshot<F: std::future::Future>(fut: F, log: &Log) -> (F::Outp
     let waker = std::task::Waker::from(w.clone());
     let mut cx = std::task::Context::from_waker(&waker);
     let mut fut = std::pin::pin!(fut);
+    if PROBE_FIRST.load(std::sync::atomic::Ordering::Relaxed) {
+        // the future is first polled once with a throw-away waker (a `now_or_never`-style probe, or
+        // the task it later moves away from); the waker of the LAST poll is the one to wake
+        let mut probe_cx = std::task::Context::from_waker(std::task::Waker::noop());
+        if let std::task::Poll::Ready(v) = fut.as_mut().poll(&mut probe_cx) {
+            let snap = log.lock().unwrap_or_else(|e| e.into_inner()).clone();
+            return (v, snap);
+        }
+    }
     loop {
         match fut.as_mut().poll(&mut cx) {
             std::task::Poll::Ready(v) => {
